@@ -176,6 +176,20 @@ func (g *Gen) heap(st *State, kind string) string {
 	return name
 }
 
+// ghostZero: allocation zero-initialises ghost flags as well. The boolean ghost cells of the object
+// that is about to be allocated (id = current allocation counter) are false. Emitted only in
+// functions whose context already refers to boolean ghost state.
+func (g *Gen) ghostZero(st *State, obj string) {
+	if _, ok := g.u.kindSort["gbool"]; !ok {
+		return
+	}
+	if _, cur := st.H["gbool"]; !cur && !g.declared["H0_gbool"] {
+		return
+	}
+	h := g.heap(st, "gbool")
+	g.assume("(forall ((l Loc)) (! (=> (= (l_obj l) " + obj + ") (not (select " + h + " l))) :pattern ((select " + h + " l))))")
+}
+
 func (g *Gen) setHeap(st *State, kind, term string) {
 	name := g.fresh("H_" + kind)
 	g.define(name, g.u.heapSort(kind), term)
